@@ -1,4 +1,5 @@
 import LassoProofs.Lemmas.Paths
+import LassoProofs.Lemmas.Grow
 import LassoProofs.Lemmas.THistory
 /-
   C01 — round-trip fidelity: a key always resolves to the exact string it was minted for.
@@ -107,5 +108,19 @@ def okKey : Out (Rodeo × Nat) → Option Nat
 
 example : okKey (((Rodeo.new 255 1 1000).run exEnv [.intern [1, 2, 3] true, .internStatic 0 false]).tryIntern exEnv [9, 9] true)
     = some 2 := by decide
+
+/-! ### Tie to the source: the growth logic of both arenas is regenerated from `store_str`
+
+`Extracted.arenaGrow` / `Extracted.lockfreeGrow` are the decision trees the extractor translates from
+the statements of `store_str` after the search for a block with room (conditions, amount claimed from
+the budget, block size and how it is built, stored capacity, placement).  For every arena state and
+every string the model does exactly what the tree says. -/
+theorem growth_logic_is_source :
+    (∀ (a : Arena) (s : Bytes), s.length ≠ 0 → ¬ s.length ≤ a.cur.free →
+      (Grow.eval (a.env s) Extracted.arenaGrow).map (a.applyOutcome s) = some (a.store s)) ∧
+    (∀ (a : LArena) (s : Bytes),
+      (Grow.eval (a.env s) Extracted.lockfreeGrow).map (a.applyOutcome s) = some (a.grow s)) ∧
+    Extracted.arenaAllocateIsCheckThenAdd = true :=
+  ⟨arena_store_is_source_tree, larena_grow_is_source_tree, arena_allocate_shape⟩
 
 end Lasso.C01
